@@ -38,10 +38,18 @@ def load_groups(prop):
     return [importlib.import_module(f'contracts.{n}').GROUP for n in names], reg
 
 
+def lemma_steps(lm, w):
+    """A lemma is one obligation or a chain of steps (a later step may assume an earlier step's goal)."""
+    r = lm.build(w)
+    if isinstance(r, tuple):
+        return [('', r[0], r[1])]
+    return [('.' + name, pc, goal) for name, pc, goal in r]
+
+
 def make_registry(group):
     registry = {}
-    for c in group.contracts:
-        registry.setdefault(c.qual, c)
+    for c in list(group.contracts) + list(group.callees):
+        registry.setdefault(c.qual, []).append(c)
     return registry
 
 
@@ -65,7 +73,7 @@ def request_for(group, c, inputs):
             'requires': [list(x) for x in c.req()],
             'ensures': [list(x) for x in c.ens() if x[0] not in c.regions] +
                        [[lab, f'({txt}) if ({c.regions[lab]}) else True'] for lab, txt in c.ens() if lab in c.regions],
-            'raises': c.raises, 'post_on_raise': {k: [list(x) for x in v] for k, v in c.post_on_raise.items()},
+            'raises': c.raises, 'raises_bounds': {k: list(v) for k, v in c.raises_bounds.items()}, 'post_on_raise': {k: [list(x) for x in v] for k, v in c.post_on_raise.items()},
             'native_ghost': c.native_ghost, 'native_override': getattr(c, 'native_override', {}) or {}}
 
 
@@ -109,10 +117,10 @@ class Checker:
             for lm in g.lemmas:
                 if self.prop not in lm.props:
                     continue
-                pc, goal = lm.build(w)
-                ob = Obligation(f'lemma.{lm.name}', 'canary' if lm.canary else 'lemma', list(pc), goal,
-                                lm.props, 'lemma', '')
-                self.items.append((g, lm, ob, lm.witness_terms(w) if lm.witness_terms else None))
+                for suffix, pc, goal in lemma_steps(lm, w):
+                    ob = Obligation(f'lemma.{lm.name}{suffix}', 'canary' if lm.canary else 'lemma', list(pc), goal,
+                                    lm.props, 'lemma', '')
+                    self.items.append((g, lm, ob, lm.witness_terms(w) if lm.witness_terms else None))
 
     def check_vacuity(self):
         """Every precondition must be satisfiable (a contradictory `requires` proves anything)."""
